@@ -4,6 +4,7 @@
 //verif:replace (*github.com/mimecast/dtail/internal/io/dlog.DLog).Devel = verifNoLog
 //verif:replace (*github.com/mimecast/dtail/internal/io/dlog.DLog).Verbose = verifNoLog
 //verif:replace (*github.com/mimecast/dtail/internal/io/dlog.DLog).Info = verifNoLog
+//verif:replace (*github.com/mimecast/dtail/internal/io/dlog.DLog).Mapreduce = verifNoMapr
 
 package dlog
 
@@ -26,6 +27,9 @@ import (
 )
 
 func verifNoLog(d *DLog, args ...interface{}) string { return "" }
+
+// statistics lines (they read /proc) are not part of any property
+func verifNoMapr(d *DLog, table string, data map[string]interface{}) string { return "" }
 
 // VerifLogger captures what the stdout logger would print.
 type VerifLogger struct {
